@@ -562,6 +562,52 @@ pub fn scenarios(include_heavy: bool) -> Vec<Scenario> {
             finish(h, r, |x: &u64| format!("{x:x}"))
         }) });
     }
+    // ---- one tile above 16 MiB (allocation strategies for big tiles), looked up and re-written over the controlled reader
+    if include_heavy {
+        let mut l = Logical::new(Compression::None);
+        l.tiles.insert(1, crate::common::xorshift_bytes(17, (17 << 20) + 5));
+        l.tiles.insert(2, b"small".to_vec());
+        let bytes = std::sync::Arc::new(write_lib(&l, Api::Sync).expect("HARNESS: huge scenario archive"));
+        let b = bytes.clone();
+        v.push(Scenario { name: "archive-lookup/tile-17MiB/none/sync".into(), is_async: false, role: Role::Reader, heavy: true, faults: true, run: Box::new(move |ch| {
+            let h = Handle::new((*b).clone(), ch);
+            let r = catch(|| PMTiles::from_reader(h.sync()).and_then(|mut pm| pm.get_tile_by_id(1)).map(|o| o.map(|t| (t.len(), crate::common::fnv(&t)))));
+            let result = match r {
+                Ok(Ok(v)) => Ok(format!("{v:?}")),
+                Ok(Err(e)) => Err(e.to_string()),
+                Err(p) => Err(format!("PANIC {p}")),
+            };
+            // the image is not part of a reader's outcome (and would cost 17 MiB per execution)
+            (Outcome { result, image: Vec::new(), final_pos: h.pos(), parts: Vec::new() }, h)
+        }) });
+        let b = bytes.clone();
+        v.push(Scenario { name: "archive-lookup/tile-17MiB/none/async".into(), is_async: true, role: Role::Reader, heavy: true, faults: true, run: Box::new(move |ch| {
+            let h = Handle::new((*b).clone(), ch);
+            let r = catch(|| block_on(async { let mut pm = PMTiles::from_async_reader(h.asyn()).await?; pm.get_tile_by_id_async(1).await }).map(|o| o.map(|t| (t.len(), crate::common::fnv(&t)))));
+            let result = match r {
+                Ok(Ok(v)) => Ok(format!("{v:?}")),
+                Ok(Err(e)) => Err(e.to_string()),
+                Err(p) => Err(format!("PANIC {p}")),
+            };
+            (Outcome { result, image: Vec::new(), final_pos: h.pos(), parts: Vec::new() }, h)
+        }) });
+        let b = bytes.clone();
+        v.push(Scenario { name: "archive-rewrite-backing/tile-17MiB/none/sync".into(), is_async: false, role: Role::Reader, heavy: true, faults: true, run: Box::new(move |ch| {
+            let h = Handle::new((*b).clone(), ch);
+            let r = catch(|| {
+                let pm = PMTiles::from_reader(h.sync())?;
+                let mut out = std::io::Cursor::new(Vec::new());
+                pm.to_writer(&mut out)?;
+                Ok::<(usize, u64), std::io::Error>((out.get_ref().len(), crate::common::fnv(out.get_ref())))
+            });
+            let result = match r {
+                Ok(Ok(v)) => Ok(format!("{v:?}")),
+                Ok(Err(e)) => Err(e.to_string()),
+                Err(p) => Err(format!("PANIC {p}")),
+            };
+            (Outcome { result, image: Vec::new(), final_pos: h.pos(), parts: Vec::new() }, h)
+        }) });
+    }
     // ---- heavy: archive write with leaf spill
     if include_heavy {
         for c in [Compression::None, Compression::GZip] {
